@@ -538,3 +538,18 @@ Proof.
   destruct lo as [lx ly], hi as [hx hy], d as [dx dy].
   unfold with_corners, translate_rect, size_from_bounding_box, padd. cbn [px py tl sz]. f_equal; f_equal; lia.
 Qed.
+
+(* C19: the one pixel wide styled polyline is the segment lines with the shared joints emitted once *)
+Theorem poly_w1_pixels st pl c : stroke_color st = Some c -> stroke_width st = 1 ->
+  poly_styled_pixels_thin st pl =
+  map (fun p => (p, c))
+    match segments (shift (pl_translate pl) (pl_vertices pl)) with
+    | [] => []
+    | s :: r => line_points s ++ flat_map (fun l => List.tl (line_points l)) r
+    end /\
+  poly_draw_styled_thin st pl = poly_styled_pixels_thin st pl.
+Proof.
+  intros Hc Hw. split; [|apply poly_glue_pixels_draw_thin; lia].
+  unfold poly_styled_pixels_thin, effective_stroke_color. rewrite Hc, Hw. change (0 <? 1) with true. cbv iota.
+  rewrite polyline_points_spec. reflexivity.
+Qed.
